@@ -4,7 +4,7 @@ CONSTANTS
   ViolKinds = {"v_stray", "v_undecl", "v_cmt", "v_splice", "v_macro", "v_bogus", "v_define", "v_line"}
   MaxItems = 2
   MinItems = 0
-  Devs = {"NewlineLocNextLine", "SetlocAfterLookahead", "DotDotRestore", "LineBase0"}
+  Devs = {"NewlineLocNextLine", "SetlocAfterLookahead", "DotDotRestore"}
   Emit = TRUE
 INVARIANTS Inv_Emit
 CHECK_DEADLOCK FALSE
